@@ -60,7 +60,6 @@ TOLERATES_ENGLISH = ("properties", "dtd", "ini", "inc", "txt")
 SIG_D3 = "properties-kept-text-ends-in-odd-backslashes"
 SIG_D4 = "android-skip-without-spans"
 SIG_D9 = "android-two-skips-typeerror"
-SIG_TWICE = "entity-with-two-errors-appended-twice"
 SIG_INI = "ini-junk-after-section-joins-comment-line"
 
 WORDS = ["alpha", "beta", "gamma", "delta", "uno", "zwei", "trois", "x", "Zed", "café",
@@ -729,8 +728,6 @@ def known_condition(r):
         if r.exc is None:
             return SIG_D4
         return None
-    if r.fmt in MERGEABLE and len({id(s) for s in skips}) < len(skips) and r.exc is None:
-        return SIG_TWICE
     if r.fmt == "ini" and r.exc is None:
         c = call["contents"]
         for s in skips:
@@ -761,6 +758,10 @@ def oracle_compare(chk, env, case, r, expect=None):
         pure.append(("wrote-outside-merge-path", r.listing))
     if r.trace_problem:
         pure.append(("unexpected-file-effects", r.trace_problem))
+    for call in r.calls:
+        if len({id(s) for s in call["skips"]}) < len(call["skips"]):
+            # repaired in /repo b431102; a recurrence is a violation whatever else happens
+            pure.append(("entity-listed-twice-in-skips", [repr(s.key) for s in call["skips"]]))
     if r.exc is not None:
         fails.append(("compare-raised", r.exc))
         return pure, fails
@@ -1284,9 +1285,9 @@ def suite_findings(chk, env, model):
             items[0] = ("rec", dict(recs[0], val="x %1$d"), "bad")
             items[1] = ("rec", dict(recs[1], val="y %1$d"), "bad")
             go("android", ref_text, render(rng, "android", items), "D9-two-entities", SIG_D9)
-        elif kind == 2:                                       # one entity, two errors -> TypeError
+        elif kind == 2:                                       # one entity, two errors: one skip
             items[-1] = ("rec", dict(recs[-1], val="it's Bob's"), "bad")
-            go("android", ref_text, render(rng, "android", items), "D9-one-entity-two-errors", SIG_D9)
+            go("android", ref_text, render(rng, "android", items), "D4-one-entity-two-errors", SIG_D4)
         elif kind == 3:                                       # junk element(s): span (0, 0)
             items.insert(rng.randint(0, len(items)), ("junk", junk_text(rng, "android")))
             go("android", ref_text, render(rng, "android", items), "D4-junk-element", SIG_D4)
@@ -1294,13 +1295,17 @@ def suite_findings(chk, env, model):
             text = render(rng, "android", items)
             cut = rng.randint(len(ANDROID_HEAD), len(text) - 2)
             go("android", ref_text, text[:cut], "D4-junk-file", SIG_D4)
-    # an entity with two error-level check results is listed twice in skips
+    # an entity with two error-level check results is skipped once and its reference text is
+    # appended once (listed twice before /repo b431102): the full oracle applies
     for i in range(n):
         unit = rng.choice(["em", "px", "ch"])
         ref_text = '<!ENTITY w%d "%d%s">\n<!ENTITY t%d "%s">\n' % (i, rng.randint(1, 40), unit, i, words(rng))
         l10n_text = '<!ENTITY w%d "%s">\n<!ENTITY t%d "%s">\n' % (
             i, rng.choice(["<b", "a & b", "12 <em"]), i, words(rng))
-        go("dtd", ref_text, l10n_text, "two-errors-one-entity", SIG_TWICE)
+        r, _ = go("dtd", ref_text, l10n_text, "two-errors-one-entity")
+        if len(r.col.errors()) != 2 or len(r.calls[-1]["skips"]) != 1:
+            chk.fail("two-errors-stream-misses-its-condition", {"ref": ref_text, "l10n": l10n_text},
+                     {"errors": r.col.errors(), "skips": len(r.calls[-1]["skips"])})
     # ini: junk that starts behind a section header on the same line and ends with the line
     # break; the comment line that follows is glued to the section header
     for i in range(n):
